@@ -36,8 +36,9 @@ def required_cells(tier):
             req["shape:%dx%d/%s" % (r, c, st)] = 2
         req["shape:%dx%d/zero-leading-column" % (r, c)] = 2
         req["shape:%dx%d/rank-deficient-consistent" % (r, c)] = 1
-    for t in ("Fraction", "int", "float"):
+    for t in ("Fraction", "int", "float", "mixed"):
         req["type:" + t] = 100
+    req["input:rows-are-tuples"] = 300
     return req
 
 
@@ -64,7 +65,7 @@ def cases(rng, budget, widx, nworkers, tier):
             yield {"m": m, "t": "float", "sampled": "wide"}
         else:
             m = [[rng.randint(-big, big) for _ in range(cls)] for _ in range(rws)]
-            c_ = {"m": m, "t": rng.choice(("int", "int", "float", "Fraction")), "sampled": "wide"}
+            c_ = {"m": m, "t": rng.choice(("int", "int", "float", "Fraction", "mixed")), "sampled": "wide", "tuples": rng.random() < 0.15}
             if rng.random() < 0.25:
                 # a solution of another system of the same shape is obtained first and kept; it is asked again after this one
                 c_["prev"] = [[rng.randint(-big, big) for _ in range(cls)] for _ in range(rws)]
@@ -90,6 +91,9 @@ def _alias(rows):
 
 
 def _conv(m, t):
+    if t == "mixed":
+        # ints, with every third entry a float (the same numbers: the entries are integers or dyadic)
+        return [[(float(x) if (i + 2 * j) % 3 == 0 else (int(x) if x == int(x) else float(x))) for j, x in enumerate(row)] for i, row in enumerate(m)]
     if t == "Fraction":
         return [[F(x) for x in row] for row in m]
     if t == "float":
@@ -142,6 +146,9 @@ def judge(case):
     prof = _profile(m, n)
     nontrivial = any(any(x != 0 for x in row) for row in m)
     rows = _conv(m, t)
+    if case.get("tuples"):
+        rows = [tuple(r_) for r_ in rows]       # equations handed over as tuples
+        mu.cell("input:rows-are-tuples")
     if case.get("alias"):
         rows = _alias(rows)
         if len(set(map(id, rows))) < len(rows):
